@@ -15,6 +15,7 @@ struct Container {
     std::function<Item(ndsize_t)> at;                           // by index
     std::function<bool(const std::string &)> has;               // by name or id
     std::function<Item(const std::string &)> get;               // by name or id; name=="" when not found
+    std::function<bool(const std::string &)> available;         // may an entity of that name be created / linked at all (default: any legal name)
 };
 
 static const char *UUIDISH = "12345678-1234-4234-8234-123456789abc";   // looks like an id, is nobody's id
@@ -62,7 +63,7 @@ static void run_history(Container &c, std::function<void()> reopen) {
             std::string n = pick_name();
             bool dup = false;
             for (auto &r : ref) dup = dup || r.name == n;
-            bool expect_ok = legal(n) && !dup;
+            bool expect_ok = (c.available ? c.available(n) : legal(n)) && !dup;
             bool ok = false; Item it;
             try { it = c.create(n); ok = true; } catch (const std::exception &) { ok = false; }
             nixsym_assert(ok == expect_ok, "create succeeds iff the name is legal and not taken");
@@ -225,4 +226,55 @@ extern "C" void vh_c03_data_frames() {
     c.has = [](const std::string &n) { return g_block.hasDataFrame(n); };
     c.get = [](const std::string &n) { return item_of(g_block.getDataFrame(n)); };
     run_history(c, []() { reopen_base(true, false, false); });
+}
+
+// ---- link containers: references of a tag, members of a group, sources of an entity.  "create" links an existing target by name,
+//      "delete" removes the link (the target stays in the block) ----
+static Tag g_tag; static Group g_grp; static DataArray g_holder;
+static bool is_target(const std::string &n) { return n == "a" || n == "b" || n == "c" || n == UUIDISH; }
+static void make_targets(bool sources) {
+    static const char *T[] = {"a", "b", "c", UUIDISH};
+    for (auto t : T) { if (sources) g_block.createSource(t, "t"); else g_block.createDataArray(t, "t", DataType::Double, NDSize({1})); }
+}
+extern "C" void vh_c03_tag_references() {
+    open_base(true, false, false);
+    make_targets(false);
+    g_tag = g_block.createTag("tag", "t", {1.0});
+    Container c;
+    c.available = is_target;
+    c.create = [](const std::string &n) { g_tag.addReference(n); return item_of(g_block.getDataArray(n)); };
+    c.del = [](const std::string &n) { return g_tag.removeReference(n) && g_block.dataArrayCount() == 4; };
+    c.count = []() { return g_tag.referenceCount(); };
+    c.at = [](ndsize_t i) { return item_of(g_tag.getReference((size_t)i)); };
+    c.has = [](const std::string &n) { return g_tag.hasReference(n); };
+    c.get = [](const std::string &n) { return item_of(g_tag.getReference(n)); };
+    run_history(c, []() { g_tag = none; reopen_base(true, false, false); g_tag = g_block.getTag("tag"); });
+}
+extern "C" void vh_c03_group_members() {
+    open_base(true, false, false);
+    make_targets(false);
+    g_grp = g_block.createGroup("grp", "t");
+    Container c;
+    c.available = is_target;
+    c.create = [](const std::string &n) { g_grp.addDataArray(n); return item_of(g_block.getDataArray(n)); };
+    c.del = [](const std::string &n) { return g_grp.removeDataArray(n) && g_block.dataArrayCount() == 4; };
+    c.count = []() { return g_grp.dataArrayCount(); };
+    c.at = [](ndsize_t i) { return item_of(g_grp.getDataArray((size_t)i)); };
+    c.has = [](const std::string &n) { return g_grp.hasDataArray(n); };
+    c.get = [](const std::string &n) { return item_of(g_grp.getDataArray(n)); };
+    run_history(c, []() { g_grp = none; reopen_base(true, false, false); g_grp = g_block.getGroup("grp"); });
+}
+extern "C" void vh_c03_entity_sources() {
+    open_base(true, false, false);
+    make_targets(true);
+    g_holder = g_block.createDataArray("holder", "t", DataType::Double, NDSize({1}));
+    Container c;
+    c.available = is_target;
+    c.create = [](const std::string &n) { g_holder.addSource(n); return item_of(g_block.getSource(n)); };
+    c.del = [](const std::string &n) { return g_holder.removeSource(n) && g_block.sourceCount() == 4; };
+    c.count = []() { return g_holder.sourceCount(); };
+    c.at = [](ndsize_t i) { return item_of(g_holder.getSource((size_t)i)); };
+    c.has = [](const std::string &n) { return g_holder.hasSource(n); };
+    c.get = [](const std::string &n) { return item_of(g_holder.getSource(n)); };
+    run_history(c, []() { g_holder = none; reopen_base(true, false, false); g_holder = g_block.getDataArray("holder"); });
 }
